@@ -65,6 +65,13 @@ def _check_boolean(value):
     return value
 
 
+def _guess_option_type(value):
+    # TOML values other than strings (integers, booleans, floats) are typed already
+    if isinstance(value, str):
+        return guess_type(value)
+    return value
+
+
 def _read_bytes(path):
     return Path(path).expanduser().read_bytes()
 
@@ -183,7 +190,9 @@ class BaseBackendConfig(BaseConfig):
 
         for field in dataclasses.fields(self):
             hyphenated_name = field.name.replace('_', '-')
-            self.popset(remaining, hyphenated_name, guess_type, field=field.name)
+            self.popset(
+                remaining, hyphenated_name, _guess_option_type, field=field.name
+            )
 
         return remaining
 
